@@ -8,6 +8,7 @@ import (
 	"os"
 	"sort"
 	"time"
+	"verif/internal/vrt"
 
 	"github.com/la5nta/wl2k-go/fbb"
 
@@ -50,6 +51,7 @@ type Result struct {
 	A, B     Outcome
 	Link     vpipe.State
 	Killed   bool // the harness had to drop the link to release a blocked Exchange
+	Spun     bool // an Exchange goroutine spins (see RunPair): the worker process must be retired
 	KillWhy  string
 	Duration time.Duration
 }
@@ -121,12 +123,38 @@ func RunPair(a, b *Side, plan vpipe.Plan, record bool) (Result, *vpipe.Link) {
 	// link-level facts decide (closed flags); the timer below is only a watchdog for the harness.
 	grace := time.NewTimer(WatchdogGrace)
 	defer grace.Stop()
+	c0 := vrt.CPUMillis()
+	tick := time.NewTicker(500 * time.Millisecond)
+	defer tick.Stop()
 	for !(gotA && gotB) {
 		select {
 		case <-doneA:
 			gotA = true
 		case <-doneB:
 			gotB = true
+		case <-tick.C:
+			// an exchange of a few kB takes milliseconds; one that is still running after 5 s while the process has burnt
+			// 20 s of CPU since it began spins (a blocked exchange uses no CPU; load makes a spinner slow, not innocent).
+			// A spinning goroutine cannot be stopped: the verdict is taken, the link dropped, and the worker retired.
+			if cpu := vrt.CPUMillis() - c0; cpu >= 20000 && time.Since(t0) >= 5*time.Second {
+				res.Killed, res.Spun = true, true
+				res.KillWhy = fmt.Sprintf("cpu-spin: an Exchange call did not return and %d s of CPU were burnt since it began", cpu/1000)
+				link.Kill()
+				deadline := time.After(2 * time.Second)
+				for !(gotA && gotB) {
+					select {
+					case <-doneA:
+						gotA = true
+					case <-doneB:
+						gotB = true
+					case <-deadline:
+						res.Duration = time.Since(t0)
+						res.Link = link.State()
+						return res, link
+					}
+				}
+			}
+			continue
 		case <-grace.C:
 			res.Killed, res.KillWhy = true, "watchdog: exchange did not return"
 			link.Kill()
